@@ -1237,6 +1237,43 @@ pub fn c06(property: &str, seed: u64) -> Plan {
             p.horizon_us += ms(2500);
         }
     }
+    // three peers: both other players go within one poll of the host - they die at the same instant
+    // (one of them with its last packets lost, so that the host holds different amounts of their
+    // input), or the host's application drops both in one tick. The host then has two cut-offs
+    // pending before its next rollback, and the spectator must still see what the host simulates.
+    if peers.len() == 3 && c.chance(&[19], 350_000) {
+        let host = match p.nodes.iter().find_map(|n| if let NodeKind::Spectator { host, .. } = n.kind { Some(host) } else { None }) {
+            Some(h) => h,
+            None => peers[0],
+        };
+        let others: Vec<usize> = peers.iter().copied().filter(|&x| x != host).collect();
+        let hosts_all: Vec<usize> = p.nodes.iter().filter_map(|n| if let NodeKind::Spectator { host, .. } = n.kind { Some(host) } else { None }).collect();
+        if hosts_all.iter().all(|&h| h == host) {
+            let at = c.range(&[20], ms(600), horizon.max(ms(700)));
+            if c.chance(&[21], 400_000) {
+                for &v in &others {
+                    let handle = match &p.nodes[v].kind {
+                        NodeKind::Peer { locals } => locals[0],
+                        _ => unreachable!(),
+                    };
+                    p.api.push(ApiCall { node: host, at_us: at, call: Api::Disconnect { handle } });
+                }
+                p.scenario = "c06-both-players-dropped-by-host-in-one-tick".into();
+            } else {
+                for (j, &v) in others.iter().enumerate() {
+                    p.nodes[v].tick.stop_us = Some(at);
+                    if j == 1 {
+                        let before = ms(c.range(&[22], 20, 200));
+                        p.windows.push(Window { from: v, to: host, start_us: at.saturating_sub(before), end_us: at + ms(10_000), kinds: ALL_KINDS, action: WinAction::Drop });
+                    }
+                }
+                p.scenario = "c06-both-players-die-at-once".into();
+            }
+            p.cfg.timeout_ms = 2000;
+            p.cfg.notify_ms = 500;
+            p.horizon_us += ms(2500);
+        }
+    }
     // with two spectators the host may cut one loose through the API; the other must not notice
     let specs: Vec<usize> = (0..p.nodes.len()).filter(|&i| matches!(p.nodes[i].kind, NodeKind::Spectator { .. })).collect();
     if specs.len() == 2 && c.chance(&[15], 300_000) {
